@@ -11,8 +11,12 @@ sys.path.insert(0, os.path.join(os.path.dirname(os.path.abspath(__file__)), ".."
 from vlib import common  # noqa: E402
 
 # non-ASCII code points the generators may use (classes dumped from the implementation)
-EXTRA = [0x85, 0xA0, 0xAB, 0xB2, 0xBA, 0xBC, 0xBF, 0xE9, 0xF1, 0x3A9, 0x5D0, 0x1680, 0x2003, 0x2014, 0x2028,
-         0x202F, 0x3000, 0x3001, 0x540D, 0x1F955]
+# every code point with the Unicode White_Space property (char::is_whitespace), the byte order mark, and the
+# non-ASCII letters / digits / punctuation the generators use
+EXTRA = sorted(set(list(range(0x80, 0x100)) + [0x1680] + list(range(0x2000, 0x200B)) + [0x2028, 0x2029, 0x202F, 0x205F, 0x3000] +
+                   [0xAB, 0xB2, 0xBA, 0xBC, 0xBF, 0xE9, 0xF1, 0x3A9, 0x5D0, 0x2014, 0x3001, 0x540D, 0x1F955,
+                    0xFEFF, 0x200B, 0x200D, 0x660, 0x2153, 0xFF11, 0x300, 0x131, 0x301, 0x43A, 0x43B, 0x447,
+                    0x44E, 0x663, 0x2022, 0x212A, 0x524D, 0xFFFD, 0x10FFFF, 0xE000, 0x1F600, 0x4E2D, 0x6587]))
 
 
 def write_if_changed(path, content):
